@@ -1470,7 +1470,7 @@ func (r *c06Run) fingerprint() string {
 func c06Report(c *evlog.Case, r *c06Run, seen map[string]int, inputs any) {
 	for _, v := range r.viols {
 		seen[v.sig]++
-		if seen[v.sig] > 2 {
+		if seen[v.sig] > 3 {
 			c.Count("violations_same_signature_not_logged", 1)
 			continue
 		}
@@ -1486,6 +1486,7 @@ func TestVerifC06Random(t *testing.T) {
 	n := l.Pick(800000, 10000000)
 	const batch = 500
 	var st c06Stats
+	seen := map[string]int{} // per shard: a signature is logged with its trace at most 3 times
 	for bi := 0; bi*batch < n; bi++ {
 		if !l.Mine(bi) {
 			continue
@@ -1496,7 +1497,6 @@ func TestVerifC06Random(t *testing.T) {
 			continue
 		}
 		rng := l.Rand(id)
-		seen := map[string]int{}
 		for k := 0; k < batch; k++ {
 			cfg := c06RandomCfg(rng)
 			r := c06RunRandom(rng, cfg, &st)
@@ -1519,6 +1519,7 @@ func TestVerifC06Exhaustive(t *testing.T) {
 	defer l.Close()
 	maxN := l.Pick(5, 6)
 	var st c06Stats
+	seen := map[string]int{} // per shard
 	idx := 0
 	for n := 1; n <= maxN; n++ {
 		for kind := 0; kind < 1<<n; kind++ {
@@ -1536,7 +1537,6 @@ func TestVerifC06Exhaustive(t *testing.T) {
 				if c == nil {
 					continue
 				}
-				seen := map[string]int{}
 				for a1 := 1; a1 < 1<<n; a1++ {
 					for a2 := 1; a2 < 1<<n; a2++ {
 						for tmo := 0; tmo < 2; tmo++ {
